@@ -53,6 +53,15 @@ func c14Name(narrow bool, input string) string {
 	return vfString(input, 1, 1, "alnum")
 }
 
+// c14FormName: form field names are arbitrary string literals of the handler (c.FormValue("rate%")):
+// one printable byte without quote and backslash, then a concrete suffix.
+func c14FormName(narrow bool, input string) string {
+	if narrow {
+		return "x"
+	}
+	return vfString(input, 1, 1, "tag")
+}
+
 func c14Endpoint(pkg *types.Package, tag string) (httpapi.Endpoint, []c14Query, []string) {
 	body := skelStruct(pkg, skelNamed(pkg, "BodyIn", types.NewStruct(nil, nil)), []skelField{{name: "A", typ: an.Int}})
 	ret := skelStruct(pkg, skelNamed(pkg, "Out", types.NewStruct(nil, nil)), []skelField{{name: "B", typ: an.String}})
@@ -72,12 +81,12 @@ func c14Endpoint(pkg *types.Package, tag string) (httpapi.Endpoint, []c14Query, 
 		a.Contract.InputBody = body
 	case 2: // form data: any non-empty combination of file, values, JSON field
 		if vfChoice(tag+"file", 2) == 1 {
-			a.Contract.InputForm.File = "f" + c14Name(narrow, tag+"fileName")
+			a.Contract.InputForm.File = "f" + c14FormName(narrow, tag+"fileName")
 			formNames = append(formNames, a.Contract.InputForm.File)
 		}
 		nv := vfChoice(tag+"values", vfParam("C14.values", 1)+1)
 		for i := 0; i < nv; i++ {
-			v := c14Name(narrow, fmt.Sprint(tag, "value", i)) + fmt.Sprint("v", i)
+			v := c14FormName(narrow, fmt.Sprint(tag, "value", i)) + fmt.Sprint("v", i)
 			for _, o := range a.Contract.InputForm.ValueNames {
 				vfAssume(o != v)
 			}
@@ -96,7 +105,7 @@ func c14Endpoint(pkg *types.Package, tag string) (httpapi.Endpoint, []c14Query, 
 					jt = an.Int
 				}
 			}
-			a.Contract.InputForm.JSON = httpapi.TypedParam{Name: "j" + c14Name(narrow, tag+"jsonName"), Type: jt}
+			a.Contract.InputForm.JSON = httpapi.TypedParam{Name: "j" + c14FormName(narrow, tag+"jsonName"), Type: jt}
 		}
 		vfAssume(!a.Contract.InputForm.IsZero())
 	}
